@@ -504,3 +504,32 @@ func checkStressAnswer(form string, hits []map[string]interface{}, measures inte
 		}
 	}
 }
+
+// first_ingest: the very first ingest requests of a fresh process arrive concurrently (one goroutine per index, released
+// together).  Reports what was acknowledged; a process death is seen by the caller.
+func init() { reg("first_ingest", cmdFirstIngest) }
+
+func cmdFirstIngest(c Cmd) (interface{}, error) {
+	g := int(c.i64("goroutines", 8))
+	per := int(c.i64("events", 3))
+	start := make(chan struct{})
+	var wg sync.WaitGroup
+	errs := make([]string, g)
+	for i := 0; i < g; i++ {
+		wg.Add(1)
+		go func(i int) {
+			defer wg.Done()
+			var sb strings.Builder
+			for k := 0; k < per; k++ {
+				fmt.Fprintf(&sb, "{\"index\":{\"_index\":\"fi%d\"}}\n{\"id\":%d,\"timestamp\":%d}\n", i, k+1, 1700000000000+int64(k))
+			}
+			<-start
+			if _, _, err := eswriter.HandleBulkBody([]byte(sb.String()), nil, 0, 0, false); err != nil {
+				errs[i] = err.Error()
+			}
+		}(i)
+	}
+	close(start)
+	wg.Wait()
+	return map[string]interface{}{"errors": errs}, nil
+}
